@@ -886,8 +886,7 @@ func (in *inliner) exprHasCandidate(e ast.Expr, stack []*types.Func) bool {
 	if e == nil {
 		return false
 	}
-	s, _ := in.firstCall(&e, stack)
-	return s != nil
+	return in.candidateInside([]ast.Expr{e}, stack)
 }
 
 func (in *inliner) stmtHasCandidate(s ast.Stmt, stack []*types.Func) bool {
@@ -895,7 +894,7 @@ func (in *inliner) stmtHasCandidate(s ast.Stmt, stack []*types.Func) bool {
 	case *ast.ExprStmt:
 		return in.exprHasCandidate(x.X, stack)
 	case *ast.AssignStmt:
-		return in.exprsCallFree(x.Lhs) && in.firstInList(x.Rhs, stack) != nil
+		return in.exprsCallFree(x.Lhs) && in.candidateInside(x.Rhs, stack)
 	}
 	return false
 }
